@@ -433,6 +433,9 @@ class Evaluator:
 
     def call(self, n: ast.Call):
         f = n.func
+        w = getattr(self, "walker", None)
+        if w is not None and isinstance(f, ast.Name) and f.id in w.mod.funcs and f.id not in self.env:
+            return w.eval(n, self.env)      # a helper of the module, wherever the call is nested
         if isinstance(f, ast.Name):
             name = f.id
             args = [self.eval(a) for a in n.args]
